@@ -8,6 +8,7 @@ mod c08;
 mod c09;
 mod c10;
 mod c12;
+mod c13;
 mod c14;
 mod c17;
 mod c18;
@@ -23,7 +24,7 @@ mod val;
 use common::*;
 
 fn all_families() -> Vec<Box<dyn Family>> {
-  vec![Box::new(c08::C08), Box::new(c18::C18), Box::new(c09::C09), Box::new(c12::C12), Box::new(thr_ops::C19Ops), Box::new(thr_ops::C19Subjects), Box::new(thr_ops::C11), Box::new(timed::C16), Box::new(timed::C15), Box::new(c01::C01), Box::new(c05::C05Seq), Box::new(c05::C05Thr), Box::new(c06::C06), Box::new(c17::C17), Box::new(c14::C14), Box::new(c10::C10)]
+  vec![Box::new(c08::C08), Box::new(c18::C18), Box::new(c09::C09), Box::new(c12::C12), Box::new(thr_ops::C19Ops), Box::new(thr_ops::C19Subjects), Box::new(thr_ops::C11), Box::new(timed::C16), Box::new(timed::C15), Box::new(c01::C01), Box::new(c05::C05Seq), Box::new(c05::C05Thr), Box::new(c06::C06), Box::new(c17::C17), Box::new(c14::C14), Box::new(c10::C10), Box::new(c13::C13), Box::new(c13::C13Thr)]
 }
 
 fn spec_for(prop: &str) -> Option<CheckSpec> {
@@ -145,6 +146,21 @@ fn spec_for(prop: &str) -> Option<CheckSpec> {
       families: vec![
         FamilySpec { fam: Box::new(thr_ops::C19Ops), quick_runs: 90_000, thorough_runs: 2_000_000 },
         FamilySpec { fam: Box::new(thr_ops::C19Subjects), quick_runs: 90_000, thorough_runs: 2_000_000 },
+      ],
+      quick_cap_s: 60,
+      thorough_cap_s: 900,
+    }),
+    "C13" => Some(CheckSpec {
+      property: "C13",
+      level: "exploration",
+      rule: "one case = (publish|ref_count|replay, hot or cold source script, subscriber attachments, call history); distinct = distinct (workload hash, recorded history hash) pairs; non-trivial = at least one call was made".to_string(),
+      assumptions: vec![
+        "reference state machine = literal reading of the statement; not asserted (statement silent): whether ref_count/replay reconnect after the count dropped to zero, and a second connect() of publish".into(),
+        "source liveness is probed through Observer::is_subscribed() on the observers handed to the instrumented source after every call".into(),
+      ],
+      families: vec![
+        FamilySpec { fam: Box::new(c13::C13), quick_runs: 400_000, thorough_runs: 6_000_000 },
+        FamilySpec { fam: Box::new(c13::C13Thr), quick_runs: 60_000, thorough_runs: 1_500_000 },
       ],
       quick_cap_s: 60,
       thorough_cap_s: 900,
@@ -311,6 +327,22 @@ fn main() {
       }
       for (_, (c, w, d)) in seen {
         println!("{}x {}\n   {}\n", c, d.chars().take(700).collect::<String>(), w);
+      }
+      0
+    }
+    "exec" => {
+      // diagnostic: run one workload given as JSON text
+      let fams = all_families();
+      let fam = fams.iter().find(|f| f.name() == args[1]).expect("family");
+      let w = json::Json::parse(&args[2]).expect("workload json");
+      let knobs = default_knobs(&mut rxsim_rt::prng::Rng::new(1), fam.threaded());
+      let out = fam.exec(&w, cfg_from_knobs(env_u64("VERIF_SEED", 1), &knobs));
+      println!("invalid={} outcome={}", out.invalid, out.res.outcome.describe());
+      for h in &out.history {
+        println!("  {}", h);
+      }
+      for v in &out.violations {
+        println!("violation class={} blame={} {}", v.class, v.blame, v.detail);
       }
       0
     }
